@@ -205,6 +205,14 @@ pub fn check_case(
     rep: &mut Report,
 ) {
     let strat = if case.multiline { "ml" } else { "line" };
+    {
+        let mut flags = case.base.flags(case.multiline);
+        if case.multiline {
+            flags.dotall = false;
+        }
+        let next = followup_input(case.base.cfg.term);
+        crate::report::set_engine_probe(&[case.base.pattern.clone()], &flags, &[&case.base.input, &next]);
+    }
     // what a searcher without a past delivers for the text searched second
     let alone: Option<Outcome> = run_one_mode(case, &Leg::Slice, None, After::OnlyTheSecond)
         .ok()
